@@ -1,6 +1,6 @@
 //verif:package github.com/kstenerud/go-concise-encoding/internal/verifh/c29
 //verif:config cap=300
-//verif:bounds the fault point is a solver variable: index k of the Write/Read call that fails (0..31), over 6 document templates with symbolic payload; failing reads may first deliver a symbolic number of bytes; the read error is a non-EOF error
+//verif:bounds the fault point is a solver variable: index k of the Write/Read call that fails (0..31) and whether a write fault is transient (that call only) or persistent, over 6 document templates with symbolic payload; failing reads may first deliver a symbolic number of bytes; the read error is a non-EOF error
 //verif:assume writers obey the io.Writer contract (a short write comes with an error)
 package c29
 
@@ -19,17 +19,19 @@ import (
 
 var errBoom = errors.New("boom")
 
-// faultWriter fails the k-th Write (and every later one).
+// faultWriter fails the k-th Write; a persistent fault also fails every later
+// one, a transient fault only that one.
 type faultWriter struct {
-	k     uint8
-	calls uint8
-	buf   []byte
+	k         uint8
+	calls     uint8
+	transient bool
+	buf       []byte
 }
 
 func (w *faultWriter) Write(p []byte) (int, error) {
 	c := w.calls
 	w.calls++
-	if c >= w.k {
+	if c == w.k || (c > w.k && !w.transient) {
 		return 0, errBoom
 	}
 	w.buf = append(w.buf, p...)
@@ -45,7 +47,7 @@ func Verif_C29_CBEMarshalWriteFault() {
 	pickTemplate()
 	k := verifrt.U8("failAt")
 	verifrt.Assume(k < 32)
-	w := &faultWriter{k: k}
+	w := &faultWriter{k: k, transient: verifrt.Bool("transient")}
 	err := cbe.NewMarshaler(configuration.New()).Marshal(struct{}{}, w)
 	failed := w.calls > w.k
 	if failed {
@@ -61,7 +63,7 @@ func Verif_C29_CTEMarshalWriteFault() {
 	pickTemplate()
 	k := verifrt.U8("failAt")
 	verifrt.Assume(k < 32)
-	w := &faultWriter{k: k}
+	w := &faultWriter{k: k, transient: verifrt.Bool("transient")}
 	err := cte.NewMarshaler(configuration.New()).Marshal(struct{}{}, w)
 	failed := w.calls > w.k
 	if failed {
